@@ -33,6 +33,17 @@ structure Sketch (α : Type) where
 
 variable {α ρ β : Type}
 
+/-- The three statements of the current header in which this property's findings live, read by tools/trules/density.py on every
+run (DSGen.density_*), so that the model follows the code before AND after the proposed fixes:
+* `mergeSkipOnN`   – `merge` returns early on `other.n_ == 0` (true) / on `other.is_empty()`, i.e. `num_retained_ == 0` (false: pinned tree)
+* `queryChecksDim` – `get_estimate` throws when `point.size() != dim_` (pinned tree: false)
+* `weight64`       – `get_estimate` weights a level by `1ULL << height` (true) / by `1 << height` evaluated in 32-bit `int` (false: pinned tree) -/
+structure Cfg where
+  mergeSkipOnN : Bool := false
+  queryChecksDim : Bool := false
+  weight64 : Bool := false
+  deriving DecidableEq, Repr
+
 /-- `density_sketch(k, dim)`: one empty level.  `check_k` (k < minK throws) is `ctorThrows`. -/
 def init (k dim : Nat) : Sketch α := { k := k, dim := dim, n := 0, numRetained := 0, levels := [[]] }
 def ctorThrows (minK k : Nat) : Bool := decide (k < minK)
@@ -134,12 +145,16 @@ def mergeLevels : List (Level α) → List (Level α) → List (Level α)
   | [], bs => bs
   | as, [] => as
 
-/-- `if (other.is_empty()) return; if (other.dim_ != dim_) throw` -/
-def mergeThrows (s o : Sketch α) : Bool := o.numRetained != 0 && o.dim != s.dim
+/-- the early return of `merge`: `if (other.is_empty()) return;` – `is_empty()` is `num_retained_ == 0`, NOT `n_ == 0`
+(finding `ds_n_exact_full_false`) – or, after the proposed fix, `if (other.n_ == 0) return;` -/
+def mergeSkips (c : Cfg) (o : Sketch α) : Bool := if c.mergeSkipOnN then o.n == 0 else o.numRetained == 0
 
-/-- `merge(other)`; note `is_empty()` is `num_retained_ == 0`, NOT `n_ == 0` (finding `ds_n_exact_full_false`). -/
-def merge (P : Picker ρ α) (r : ρ) (s o : Sketch α) : Sketch α × ρ :=
-  if o.numRetained = 0 then (s, r)
+/-- `if (<early return>) return; if (other.dim_ != dim_) throw` -/
+def mergeThrows (c : Cfg) (s o : Sketch α) : Bool := !mergeSkips c o && o.dim != s.dim
+
+/-- `merge(other)` -/
+def merge (c : Cfg) (P : Picker ρ α) (r : ρ) (s o : Sketch α) : Sketch α × ρ :=
+  if mergeSkips c o = true then (s, r)
   else if o.dim ≠ s.dim then (s, r)
   else compactLoop P r { s with levels := mergeLevels s.levels o.levels,
                                 numRetained := s.numRetained + o.numRetained, n := s.n + o.n }
@@ -156,27 +171,32 @@ def iter (s : Sketch α) : List (Point α × Nat) := iterFrom 0 s.levels
 section est
 variable [Scalar α]
 
-/-- `(1 << height)` as `get_estimate` evaluates it: in 32-bit `int`, then converted to `T`.  `2^h` for `h < 31`;
-`INT_MIN = -2^31` for `h = 31` (what g++ produces; finding `ds_estimate_nonneg_full_false`); for `h ≥ 32` the shift is
-undefined behaviour (`estimateUB`; the value given here is then irrelevant).  The iterator uses `1ULL << height_`. -/
-def estWeight (h : Nat) : α := if h < 31 then Scalar.ofNat (2 ^ h) else Scalar.neg (Scalar.ofNat (2 ^ 31))
+/-- the level weight as `get_estimate` evaluates it.  `1ULL << height` = `2^h`; or (pinned tree) `(1 << height)` in 32-bit `int`,
+then converted to `T`: `2^h` for `h < 31`, `INT_MIN = -2^31` for `h = 31` (what g++ produces; finding
+`ds_estimate_nonneg_full_false`), undefined behaviour for `h ≥ 32` (`estimateUB`; the value given here is then irrelevant).
+The iterator always uses `1ULL << height_`. -/
+def estWeight (c : Cfg) (h : Nat) : α :=
+  if c.weight64 then Scalar.ofNat (2 ^ h)
+  else if h < 31 then Scalar.ofNat (2 ^ h) else Scalar.neg (Scalar.ofNat (2 ^ 31))
 
 /-- inner loop of `get_estimate`: `density += (1 << height) * kernel_(p, point) / n_` -/
-def estLevel (K : Point α → Point α → α) (q : Point α) (n h : Nat) (acc : α) (lvl : Level α) : α :=
-  lvl.foldl (fun d p => Scalar.add d (Scalar.div (Scalar.mul (estWeight h) (K p q)) (Scalar.ofNat n))) acc
+def estLevel (c : Cfg) (K : Point α → Point α → α) (q : Point α) (n h : Nat) (acc : α) (lvl : Level α) : α :=
+  lvl.foldl (fun d p => Scalar.add d (Scalar.div (Scalar.mul (estWeight c h) (K p q)) (Scalar.ofNat n))) acc
 
-def estFrom (K : Point α → Point α → α) (q : Point α) (n : Nat) : Nat → α → List (Level α) → α
+def estFrom (c : Cfg) (K : Point α → Point α → α) (q : Point α) (n : Nat) : Nat → α → List (Level α) → α
   | _, acc, [] => acc
-  | h, acc, lvl :: rest => estFrom K q n (h + 1) (estLevel K q n h acc lvl) rest
+  | h, acc, lvl :: rest => estFrom c K q n (h + 1) (estLevel c K q n h acc lvl) rest
 
-/-- `get_estimate(point)` (throws iff `is_empty()`, see `estimateThrows`) -/
-def estimate (K : Point α → Point α → α) (s : Sketch α) (q : Point α) : α :=
-  estFrom K q s.n 0 Scalar.zero s.levels
+/-- `get_estimate(point)` (see `estimateThrows` for when it throws instead) -/
+def estimate (c : Cfg) (K : Point α → Point α → α) (s : Sketch α) (q : Point α) : α :=
+  estFrom c K q s.n 0 Scalar.zero s.levels
 
-def estimateThrows (s : Sketch α) : Bool := s.numRetained == 0
+/-- `if (is_empty()) throw` and, after the proposed fix, `if (point.size() != dim_) throw` -/
+def estimateThrows (c : Cfg) (s : Sketch α) (q : Point α) : Bool :=
+  s.numRetained == 0 || (c.queryChecksDim && q.length != s.dim)
 
-/-- `get_estimate` executes `1 << height` with `height ≥ 32` (undefined behaviour) iff a level of height ≥ 32 holds a point -/
-def estimateUB (s : Sketch α) : Bool := (s.levels.drop 32).any (fun l => !l.isEmpty)
+/-- `get_estimate` executes `1 << height` in `int` with `height ≥ 32` (undefined behaviour) iff a level of height ≥ 32 holds a point -/
+def estimateUB (c : Cfg) (s : Sketch α) : Bool := !c.weight64 && (s.levels.drop 32).any (fun l => !l.isEmpty)
 
 /-! ### concrete picker: what `compact_level` computes -/
 
